@@ -8,7 +8,8 @@
 EXTENDS Integers, Sequences, FiniteSets, TLC, Json, IOUtils, SequencesExt
 
 Atoms == {".", ".a", ".b", ".[0]", ".[1]", ".[-1]", ".[]", ".[1:]", ".[:1]", ".[0:2]", "..", ".a?", ".[]?", "empty", "error", "first", "last",
-          ".a.b", ".a[0]", ".[0].a", "getpath([\"a\",\"b\"])", "getpath([0])", "getpath([])", ".[\"a\"]", ".[1.5]", ".[:1.5]", "$x", "1", "null", "[.]", "{a: .}"}
+          ".a.b", ".a[0]", ".[0].a", "getpath([\"a\",\"b\"])", "getpath([0])", "getpath([])", ".[\"a\"]", ".[1.5]", ".[:1.5]", "$x", "1", "null", "[.]", "{a: .}",
+          "([] | .[])", "({} | .[])", "([.[]? | empty] | .[])", "([] | .[]?)", "([] | .[0])", "({} | .a)", "(map(select(false))? | .[])", "([.a[]? | select(. == \"none\")] | .[])"}
 Un(p) == { "(" \o p \o ").a", "(" \o p \o ")[0]", "(" \o p \o ")[]", "(" \o p \o ")[1:]", "(" \o p \o ")[:1]", "(" \o p \o ")?", "(" \o p \o ")[]?",
            "first(" \o p \o ")", "last(" \o p \o ")", "limit(1; " \o p \o ")", "limit(2; " \o p \o ")", "recurse(" \o p \o ")",
            "(" \o p \o " | select(. != null))", "(" \o p \o " | select(type == \"number\"))", "(" \o p \o " | select(.a?))",
